@@ -221,6 +221,11 @@ func runC07(r *Run) {
 	ro.Done()
 	rs.Done()
 
+	// ---- fresh: a reused destination carries nothing of its previous content
+	fr := r.Rule("C07.fresh", "on every path of a typed getter with a pointer receiver that reports success, every field of the destination (or the destination itself) has been assigned, directly or by the getter it delegates to: the result is a function of the message only, not of what the destination held before", 8)
+	checkFresh(r, fr, cl)
+	fr.Done()
+
 	// ---- tags: nil-return conditions of the check helpers (compared across configurations in Post)
 	tg := r.Rule("C07.tags", "CheckSize, CheckOverflow, checkHMAC and checkFingerprint return nil exactly under their reference condition in this build configuration (the parent compares release and debug)", 4)
 	r.Res.Extra = map[string]interface{}{"nilconds": checkHelperConds(r, tg)}
@@ -371,7 +376,6 @@ func nilCondString(p *Prog, fn *ssa.Function) (string, bool) {
 	return strings.Join(conds, " || "), true
 }
 
-
 var helperReference = map[string]string{
 	"CheckSize":        "(p:1 == p:2)",
 	"CheckOverflow":    "!(p:2 < p:1)",
@@ -451,5 +455,108 @@ func postTags(prop string) func(verif, repo, tier string, results []*PropResult)
 			}
 		}
 		return out
+	}
+}
+
+// checkFresh: C07.fresh.
+func checkFresh(r *Run, rc *RuleCtx, cl *closures) {
+	p := r.P
+	isGetter := map[*ssa.Function]bool{}
+	for _, g := range cl.Getters {
+		isGetter[g] = true
+	}
+	for _, fn := range cl.Getters {
+		if fn.Blocks == nil || len(fn.Params) == 0 {
+			continue
+		}
+		recv := fn.Params[0]
+		pt, ok := recv.Type().Underlying().(*types.Pointer)
+		if !ok {
+			continue // value receiver: nothing to fill
+		}
+		idx := errorResultIndex(fn)
+		if idx < 0 {
+			continue
+		}
+		nf := 1
+		var names []string
+		if st, isSt := pt.Elem().Underlying().(*types.Struct); isSt {
+			nf = st.NumFields()
+			for i := 0; i < nf; i++ {
+				names = append(names, st.Field(i).Name())
+			}
+		} else {
+			names = []string{"*" + recv.Name()}
+		}
+		if nf == 0 || nf > 60 {
+			continue
+		}
+		all := uint64(1)<<uint(nf) - 1
+		fromRecv := func(v ssa.Value) bool {
+			for i := 0; i < 4; i++ {
+				switch x := v.(type) {
+				case *ssa.ChangeType:
+					v = x.X
+					continue
+				case *ssa.Convert:
+					v = x.X
+					continue
+				}
+				break
+			}
+			return v == ssa.Value(recv)
+		}
+		r.Analysed(fn)
+		rep := map[*ssa.Return]bool{}
+		nSucc := 0
+		q := &PathQuery{P: p, Fn: fn}
+		q.Step = func(in ssa.Instruction, deferred bool, st uint64, c *PathCtx) (uint64, bool) {
+			switch x := in.(type) {
+			case *ssa.Store:
+				if x.Addr == ssa.Value(recv) {
+					return all, false
+				}
+				if fa, ok := x.Addr.(*ssa.FieldAddr); ok && fa.X == ssa.Value(recv) {
+					return st | 1<<uint(fa.Field), false
+				}
+			case *ssa.Call:
+				if sc := x.Call.StaticCallee(); sc != nil && p.isLibFn(sc) && len(x.Call.Args) > 0 && fromRecv(x.Call.Args[0]) {
+					// delegation to another getter on the same destination (checked on its own), valid
+					// on the path on which that call reported success
+					if isGetter[sc] && c.NilState(x) != -1 {
+						return all, false
+					}
+				}
+			}
+			return st, false
+		}
+		q.AtReturn = func(ret *ssa.Return, st uint64, c *PathCtx) {
+			if c.NilState(ret.Results[idx]) == -1 {
+				return
+			}
+			// a delegation whose error is returned as is: success of this return is success of the callee
+			if call, ok := c.Resolve(deref(c.Resolve(ret.Results[idx]))).(*ssa.Call); ok {
+				if sc := call.Call.StaticCallee(); sc != nil && isGetter[sc] && len(call.Call.Args) > 0 && fromRecv(call.Call.Args[0]) {
+					st = all
+				}
+			}
+			nSucc++
+			if st&all == all || rep[ret] {
+				return
+			}
+			rep[ret] = true
+			var missing []string
+			for i := 0; i < nf; i++ {
+				if st&(1<<uint(i)) == 0 {
+					missing = append(missing, names[i])
+				}
+			}
+			rc.ViolationPath(fn, instrPos(ret), "destination not assigned: "+strings.Join(missing, ","), "the getter reports success on a path that leaves (part of) a reused destination as it was: the caller sees the value of an earlier message", c.Witness(fn, ret))
+		}
+		q.Run()
+		rc.Instance(fnName(fn), true, map[string]interface{}{"fn": fnName(fn), "destination_parts": names, "success_paths": nSucc})
+		if q.Exhausted {
+			rc.Violation(fn, fn.Pos(), "path exploration exhausted", "undecided")
+		}
 	}
 }
